@@ -120,7 +120,9 @@ def run_case(case):
     scen = "%s/%s" % (case["target"], case["state"])
     out.classes += ["target:" + case["target"], "state:" + case["state"], "errno:" + case["errno"],
                     "mode:" + mode, "ops:%d" % (n // 20 * 20)]
-    if ref.code != 0:
+    special_xdev = any(e["kind"] == "fifo" for e in case["ents"]) and \
+        ("fallback" in case["target"] or case["target"].endswith("_fb"))
+    if ref.code != 0 and not special_xdev:
         out.fail("reference_run_failed", "fault-free run failed: %r" % ref.err[-200:])
         return out
     budget = 20 * n + 2000
